@@ -7,7 +7,8 @@ of `parseSearchKey` take explicit fuel in the model, so termination is a theorem
 assumption of it. The session-loop part of C11 (one completion result per line, 20 errors close the
 session) has its own section at the end of this file.
 
-History: before commits 18609dc / e5f2a7d the statements `parse_terminates` and "errors are parser
+History: before commit c30e930 the recursion depth of `parseSearchKey` was bounded by the input length only
+(`depth_unbounded`, #18); before commits 18609dc / e5f2a7d the statements `parse_terminates` and "errors are parser
 errors" were false (end of input inside a quoted string looped forever, #7; `{0}` and oversize literals
 returned plain errors, #17); the former witnesses are kept below as regression theorems about the
 repaired code, and as `corpus/C11/*.ops` on the real parser.
@@ -110,24 +111,34 @@ theorem string_retained_le_consumed (fuel : Nat) (s : PState) (r : Bytes) (s' : 
     (h : parseAString fuel s = .ok r s') : r.length + s'.input.length ≤ s.input.length + 1 :=
   parseAString_len fuel s r s' hl h
 
-/-! ### recursion depth (#18) -/
+/-! ### recursion depth (#18, repaired by /repo c30e930) -/
 
-/-- **`depth_bounded`**: what IS true. With a recursion budget `d` above the number of bytes left (and
-loop fuel at least `d`), `parseSearchKey` never exhausts the budget: every level of nesting — `(`,
-`NOT `, `OR ` — consumes at least one byte, so the recursion depth is at most the length of the
-remaining input. -/
-theorem depth_le_input (d fuel : Nat) (hd : d ≤ fuel) (s : PState) (hl : Loaded s)
-    (hs : s.input.length < d) : parseSearchKey d fuel s ≠ .fuel :=
-  (tot_parseSearchKey fuel d hd).tot s hl hs
+/-- **`depth_bounded`**, now at full strength: the recursion of `parseSearchKey` / `parseSearchKeyList` / NOT / OR is
+bounded by the CONSTANT `searchBudget = maxSearchKeyDepth + 1` (regenerated from the source), whatever the
+input: with loop fuel above the number of bytes left `parseSearchKey d fuel` never runs out of fuel, for
+every `d` — the first argument only counts down the levels still allowed and ends in a parser error, not in
+deeper recursion. (Before c30e930 the statement needed `d` above the input length: `depth_le_input`.) -/
+theorem depth_bounded (d fuel : Nat) (s : PState) (hl : Loaded s)
+    (hs : s.input.length < fuel) : parseSearchKey d fuel s ≠ .fuel :=
+  (tot_parseSearchKey fuel d).tot s hl hs
 
-/-- **`depth_unbounded`**: and nothing better is true. For every budget `d` there is an input of `d` bytes
-(`d` opening parentheses) that exhausts it: the recursion depth of `parseSearchKey` /
-`parseSearchKeyList` grows linearly with the input and no constant bounds it. The Go code has no depth
-limit and no line-length limit; its stack is finite (`SEARCH` + 2·10^7 `(` overflows it — not run in the
-quick tier), and parsing precedes the authentication check. -/
-theorem depth_unbounded (d fuel : Nat) (c : Ctx) (rest : Bytes) :
-    parseSearchKey d fuel (load c (List.replicate d 40 ++ rest)) = .fuel :=
+/-- the cap the current source has: 65 levels (depths 0 … 64) -/
+theorem search_budget_known : searchDepthShapeKnown = true ∧ 0 < searchBudget := by decide
+
+/-- **`depth_capped`** (was `depth_unbounded`: "for every budget `d` there is an input of `d` bytes that exhausts it, no
+constant bounds the recursion depth" — the stack of the real process overflowed at 2·10^7 levels): `d` opening
+parentheses against a budget of `d` levels are a PARSER ERROR (answered BAD by the session); with
+`d = searchBudget` that is every SEARCH nested deeper than `maxSearchKeyDepth`. -/
+theorem depth_capped (d fuel : Nat) (c : Ctx) (rest : Bytes) :
+    ∃ t s', parseSearchKey d fuel (load c (List.replicate d 40 ++ rest)) = .err (.parse t) s' :=
   parseSearchKey_parens d fuel c rest
+
+/-- regression of #18 on whole command lines: 64 levels of nesting parse, 65 are a parser error -/
+theorem search_nesting_regression :
+    (match parse 600 (kw "a SEARCH " ++ List.replicate 64 40 ++ kw "ALL" ++ List.replicate 64 41 ++ kw "\r\n") with
+      | .ok _ _ => true | _ => false) = true ∧
+    isParseError (parse 600 (kw "a SEARCH " ++ List.replicate 65 40 ++ kw "ALL" ++ List.replicate 65 41 ++ kw "\r\n")) = true := by
+  constructor <;> decide +kernel
 
 /-! ## session loop (added by the lead / the session-loop model) -/
 
